@@ -33,6 +33,33 @@ CHECKS = [
   "note": "Trusts the long-double DFT reference; budget 64*eps(dtype)*N; the single boundary bin is open when the exact shift is "
           "within 1e-9 of, but not equal to, a whole bin.",
   "technique": "bounded exhaustive enumeration of configurations on the real code, complete-basis operator identification against a long-double DFT reference model"},
+ {"property_id": "C06",
+  "text": "Bounded exhaustive exploration: time_delay/sample_delay on 10 DMs (3 units, both signs) x all ordered pairs and triples "
+          "of 7 frequencies (Hz/MHz/GHz, scalar and array) x 4 rates against the exact rational f^-2 law, antisymmetry and chain "
+          "additivity; incoherent_dedispersion on 5 classes x nchan 1..5 x 3 alignments x N in {6,12,24} x start/none x 7 "
+          "reference placements x 11 sweeps (both signs, up to beyond the block): EVERY returned sample is decoded from an "
+          "index-encoding payload and must be the input sample at T + round(delay_i)/sr, in-range, same element.",
+  "note": "Trusts Fractions, the stated constant K = 1/2.41e-4 and astropy unit scales; completeness is deliberately weak (any sound "
+          "window accepted); delays within 1e-9 of a half-integer are left open.",
+  "technique": "bounded exhaustive enumeration of configurations on the real code with per-sample source tracing against an exact rational delay model"},
+ {"property_id": "C10",
+  "text": "Bounded exhaustive exploration of concatenate: every multiset of <= 3 cut points x every missing-start pattern x every "
+          "contiguous grouping and both folds (associativity) on 6 classes x 6 rates x L in {1,4,6}; EVERY sequence of 2-3 index "
+          "ranges along time and 1-4 ranges along frequency (contiguous or not: gaps, overlaps, swaps, compensating gap+overlap) "
+          "must be joined exactly or rejected; metadata perturbation menu (+-1,+-2,+-1/2 sample, rate/bw x(1+-1e-3), centre +-1 "
+          "channel, class, other-axis mismatch).",
+  "note": "Trusts Fractions on the Time two-double; a sequence is required to be rejected only when two non-empty start-bearing "
+          "pieces are inconsistent by >= 1 sample; any exception class counts as rejection.",
+  "technique": "bounded exhaustive enumeration of split/join operation sequences on real objects (model = the original signal), differential associativity oracle"},
+ {"property_id": "C12",
+  "text": "Bounded exhaustive exploration of snippet: N in {1,2,5,8,13} x 3-4 dtypes x 3 sample shapes x start/none x 3 rates x EVERY "
+          "quarter-sample t in [-1,N+1] x EVERY n in [-1,N+1] x 4 forms of t (int, float, Quantity, Time), on a complete basis; "
+          "plus long signals (N=40000) with large fractional offsets against a float64 FFT reference. Whole counts must equal "
+          "z[t:t+n] bit-exactly, other requests the long-double DFT interpolation at the exactly computed instant; out-of-range, "
+          "n<0 and Time-without-start must raise ValueError.",
+  "note": "Trusts the long-double DFT reference and exact conversion of each form to samples; Quantity/Time requests exactly on the "
+          "boundary and the start_time of empty results are left open.",
+  "technique": "bounded exhaustive enumeration of inputs on the real code, complete-basis operator identification against a long-double DFT reference model"},
  {"property_id": "C18",
   "text": "Exhaustive enumeration on the real functions: every N below 2^20 (quick) / 2^23 (thorough), N in {s-1,s,s+1} around "
           "7-smooth s below 2^62, and fast_len on every signal length 0..200 of every class; each result compared with an "
